@@ -72,6 +72,26 @@ def r2_counts_and_margin(ctx):
             d = f"+= {astx.u(a.value)} under {sorted(la)}; breaks under {lbs}"
             good = (la == {f"in({c1}, {s})"} and lbs == sorted([sorted([f"in({c1}, {s})"]), sorted([f"in({c2}, {s})", f"not in({c1}, {s})"])]) and stops_after
                     and astx.u(a.value) == f"{b}.weight" and isinstance(a.op, ast.Add) and it is not None and astx.u(it) == f"{b}.ranking" and bi is not None and astx.u(bi) == "self.profile.ballots")
+        elif len(loops) == 1:
+            # the same scan as a first-match search:  first = next((s for s in b.ranking if a in s or b in s), None);
+            # the ballot counts iff such a position exists and holds a
+            from vk.algebra import equivalent, spec_guard
+            bal = loops[0]
+            b = astx.u(bal.target)
+            N = Normalizer(f.node, inline=True)
+            la = literals(N.conj(astx.path_condition(f.node, a, pm)))
+            firsts = [n for st in bal.body for n in ast.walk(st) if isinstance(n, ast.Call) and astx.u(n.func) == "next" and len(n.args) == 2 and astx.is_const(n.args[1], None)
+                      and isinstance(n.args[0], ast.GeneratorExp)]
+            bi = astx.unique_def(f.node, astx.u(bal.iter)) if isinstance(bal.iter, ast.Name) else bal.iter
+            d = f"+= {astx.u(a.value)} under {sorted(la)}"
+            if firsts and len({astx.u(x) for x in firsts}) == 1:
+                g = firsts[0].args[0]
+                s = astx.u(g.generators[0].target)
+                K = N.key(firsts[0])
+                okgen = len(g.generators) == 1 and astx.u(g.generators[0].iter) == f"{b}.ranking" and astx.u(g.elt) == s and len(g.generators[0].ifs) >= 1 \
+                    and equivalent(Normalizer(None, inline=False).conj([(t, True) for t in g.generators[0].ifs]), spec_guard(f"{c1} in {s} or {c2} in {s}"))
+                good = okgen and la == {f"not isnone({K})", f"in({c1}, {K})"} and astx.u(a.value) == f"{b}.weight" and isinstance(a.op, ast.Add) \
+                    and bi is not None and astx.u(bi) == "self.profile.ballots" and not any(isinstance(x, (ast.Break, ast.Continue, ast.Return)) for x in ast.walk(bal))
     ctx.check(good, f, augs[0] if augs else f.node, "head2head(a,b): a ballot counts for a iff a is met before b", d,
               f"counting loop is `{d}`; documented: scan positions, add the weight and stop when a is found, stop when b is found")
     init = [dv for st, dv in astx.defs_of(f.node, astx.u(augs[0].target)) if dv is not None] if augs else []
@@ -203,10 +223,20 @@ def r2_counts_and_margin(ctx):
     good = False
     if len(edges) == 1:
         lp = astx.enclosing(edges[0], astx.parents(f.node), ast.For)
-        e = astx.u(lp.target) if lp is not None else "?"
         kw = {k.arg: astx.u(k.value) for k in edges[0].keywords}
-        good = lp is not None and astx.u(lp.iter) == "self.pairwise_dict.keys()" and [astx.u(x) for x in edges[0].args] == [f"{e}[0]", f"{e}[1]"] \
-            and kw == {"weight": f"self.pairwise_dict[{e}]"}
+        # the stored margins are walked either by key (weight looked up) or by item (weight bound by the loop)
+        if lp is not None and isinstance(lp.target, ast.Tuple) and len(lp.target.elts) == 2 and astx.u(lp.iter) == "self.pairwise_dict.items()":
+            e, w = astx.u(lp.target.elts[0]), astx.u(lp.target.elts[1])
+            if isinstance(lp.target.elts[0], ast.Tuple) and len(lp.target.elts[0].elts) == 2:
+                ends = [astx.u(x) for x in lp.target.elts[0].elts]
+            else:
+                ends = [f"{e}[0]", f"{e}[1]"]
+            rebound = any(isinstance(x, ast.Name) and isinstance(x.ctx, ast.Store) for st in lp.body for x in ast.walk(st))
+            good = [astx.u(x) for x in edges[0].args] == ends and kw == {"weight": w} and not rebound
+        else:
+            e = astx.u(lp.target) if lp is not None else "?"
+            good = lp is not None and astx.u(lp.iter) == "self.pairwise_dict" and [astx.u(x) for x in edges[0].args] == [f"{e}[0]", f"{e}[1]"] \
+                and kw == {"weight": f"self.pairwise_dict[{e}]"}
     nodes = astx.calls_in(f.node, "add_nodes_from")
     good = good and len(nodes) == 1 and astx.u(nodes[0].args[0]) == "self.candidates"
     ctx.check(good, f, edges[0] if edges else f.node, "graph: all candidates are nodes; an edge key[0] -> key[1] per stored margin", "", "graph construction changed orientation or node set")
@@ -258,8 +288,8 @@ def r3_tiers(ctx):
         srt = rv.generators[0].iter
         if isinstance(srt, ast.Call) and astx.u(srt.func) == "sorted":
             kw = {k.arg: k.value for k in srt.keywords}
-            td = astx.u(srt.args[0]).replace(".keys()", "")
-            good = astx.is_const(kw.get("reverse"), True) and "key" not in kw and astx.u(rv.elt) == f"{td}[{astx.u(rv.generators[0].target)}]" and astx.u(srt.args[0]) == f"{td}.keys()"
+            td = astx.u(srt.args[0])
+            good = astx.is_const(kw.get("reverse"), True) and "key" not in kw and astx.u(rv.elt) == f"{td}[{astx.u(rv.generators[0].target)}]" and isinstance(srt.args[0], (ast.Name, ast.Attribute))
     ctx.check(good, f, rets[0] if rets else f.node, "tiers ordered by reach-set size, largest first", d, f"tier list is `{d}`; documented sorted(sizes, reverse=True)")
     # consumers of tier 0
     f = prog.find_func("PairwiseComparisonGraph.has_condorcet_winner")
